@@ -12,7 +12,7 @@ from vmon.ref import walk
 
 ID = 'C02'
 RULE = ('random 2-D/3-D crystals from all lattice systems, 1-3 orbits, 1-2 species, random diffusing species, random safe cutoff, '
-        'random prefactors in [0.5,2], energies N(0,sigma), sigma in {0.3,1,3}; non-trivial = network has at least one jump; '
+        'random prefactors in [0.5,2], energies N(0,sigma), sigma in {0.3,1,3}, all barriers shifted by 0/12/25/40 kT (absolute rates down to 1e-18); non-trivial = network has at least one jump; '
         'distinct = (lattice kind, sites, Wyckoff sets, jump classes, vector-basis size, pinv branch, components)')
 ASSUMPTIONS = ['R1 tolerance 1e-9 x |D0| (uncorrelated part) - absolute in that scale because non-percolating networks have D=0',
                'R2 (finite differences) tolerance 2e-5 x |D0|, connected networks with <= 6 sites',
@@ -50,6 +50,7 @@ def run_case(case):
         inv = gen.invmap(sl, N)
         sigma = float(rng.choice([0.3, 1., 3.]))
         pre, bE, preT, bET = gen.rand_thermo_interstitial(rng, len(sl), len(jn), sigma)
+        bET = bET + float(rng.choice([0., 0., 12., 25., 40.]))  # low-temperature data: absolute rates down to 1e-18
         desc = {'kind': spec['kind'], 'lattice': crys.lattice, 'basis': crys.basis, 'chem': chem, 'cutoff': cutoff,
                 'pre': pre, 'bE': bE, 'preT': preT, 'bET': bET}
         if sample is None: sample = desc
